@@ -123,15 +123,15 @@ def strategy(tier):
 
 
 def _mismatch_lines(out):
-    return [l for l in out.splitlines() if l.startswith("ERROR: hash mismatch")]
+    return [l for l in out.split("\n") if l.startswith("ERROR: hash mismatch")]
 
 
 def _new_lines(out):
-    return [l for l in out.splitlines() if l.startswith("found new file ")]
+    return [l for l in out.split("\n") if l.startswith("found new file ")]
 
 
 def _missing_block(out):
-    lines = out.splitlines()
+    lines = out.split("\n")
     hdr = None
     block = []
     for i, l in enumerate(lines):
